@@ -14,4 +14,6 @@ func (*routerCore) verifTrace(context.Context, string, string, sharing.ID, []byt
 
 func (*routerCore) verifGate(context.Context, string) {}
 
-func (*routerCore) verifCall(ctx context.Context, _ string, _ []sharing.ID) context.Context { return ctx }
+func (*routerCore) verifCall(ctx context.Context, _ string, _ []sharing.ID) context.Context {
+	return ctx
+}
